@@ -149,6 +149,15 @@ CHECKS = {
             'kind and parameters their scheme and extension denote.',
             'The variant reference (required / allowed sets) is my reading of the statement; any matching file is '
             'accepted when several exist; no network: FTP only by dispatch, HTTP through a stub.', '4/C14'),
+    'C12': ('exploration',
+            'Hypothesis-drawn operation histories on long-lived parser / code generator / compiler objects with a '
+            'differential oracle against fresh instances; cross-process digest comparison over PYTHONHASHSEED values',
+            'Each history feeds valid and invalid MIBs (truncations inside MACRO bodies, comments, quoted strings; '
+            'token mutants), code generations, repeated generations and compile() calls to the same objects; every '
+            'step must equal what brand-new objects produce (tree, error class and line, text, MibInfo, statuses). '
+            'A generated corpus is compiled under 5 (thorough 24) hash seeds in child interpreters and all SHA-256 '
+            'digests of trees, JSON and pysnmp texts and module summaries must agree.',
+            'Fresh instances are the reference; "all hash seeds" is sampled.', '4/C12'),
     'C11': ('exploration',
             'exhaustive prefix enumeration of generated files + Hypothesis token mutants/noise; oracle = exception '
             'type, completeness by the renderer span table, exact line of never-viable tokens; atheris in thorough',
